@@ -3,6 +3,7 @@ package c03
 import (
 	"fmt"
 	"sort"
+	"strings"
 
 	"verifharness/lib/sqlm"
 	"verifharness/rt"
@@ -175,7 +176,54 @@ type scriptCase struct {
 	script []string
 }
 
+// permutations returns all orders of the given names (deterministic).
+func permutations(names []string) [][]string {
+	if len(names) <= 1 {
+		return [][]string{append([]string(nil), names...)}
+	}
+	var out [][]string
+	for i := range names {
+		rest := append(append([]string(nil), names[:i]...), names[i+1:]...)
+		for _, p := range permutations(rest) {
+			out = append(out, append([]string{names[i]}, p...))
+		}
+	}
+	return out
+}
+
+// pkPermutationScript creates one table per order of a composite primary key over n columns declared
+// in the fixed column order c1…cn (every order relative to the column order, incl. the exact reverse).
+func pkPermutationScript(prefix string, n int, withoutRowID bool) []string {
+	var cols []string
+	for i := 1; i <= n; i++ {
+		cols = append(cols, fmt.Sprintf("c%d", i))
+	}
+	var out []string
+	for k, perm := range permutations(cols) {
+		var defs []string
+		for i, c := range cols {
+			typ := []string{"INTEGER", "TEXT", "INTEGER", "TEXT"}[i%4]
+			defs = append(defs, c+" "+typ+" NOT NULL")
+		}
+		opt := ""
+		if withoutRowID {
+			opt = " WITHOUT ROWID"
+		}
+		out = append(out, fmt.Sprintf("CREATE TABLE %s%d (%s, v TEXT, PRIMARY KEY (%s))%s", prefix, k, strings.Join(defs, ", "), strings.Join(perm, ", "), opt))
+	}
+	return out
+}
+
 func scripts() []scriptCase {
+	return append(fixedScripts(), []scriptCase{
+		{"pk-permutations-3-columns", pkPermutationScript("pka", 3, false)},
+		{"pk-permutations-4-columns", pkPermutationScript("pkb", 4, false)},
+		{"pk-permutations-3-columns-without-rowid", pkPermutationScript("pkc", 3, true)},
+		{"pk-permutations-4-columns-without-rowid", pkPermutationScript("pkd", 4, true)},
+	}...)
+}
+
+func fixedScripts() []scriptCase {
 	return []scriptCase{
 		{"lower-case-keywords", []string{
 			"create table lcp (id integer primary key autoincrement, name text not null default 'x' check (length(name) > 0))",
@@ -400,6 +448,26 @@ func scripts() []scriptCase {
 		{"ident-contains-primary-unique", []string{
 			`CREATE TABLE primary_unique (primary_id INTEGER NOT NULL, unique_code TEXT, key_part TEXT, PRIMARY KEY (primary_id), UNIQUE (unique_code))`,
 			`CREATE UNIQUE INDEX unique_idx ON primary_unique (key_part DESC, unique_code)`,
+		}},
+		// AUTOINCREMENT with the clauses SQLite accepts between PRIMARY KEY and AUTOINCREMENT, in mixed
+		// case, over several lines, with other column constraints around
+		{"autoincrement-asc", []string{
+			"CREATE TABLE aia (id INTEGER PRIMARY KEY ASC AUTOINCREMENT, v TEXT)",
+		}},
+		{"autoincrement-on-conflict", []string{
+			"CREATE TABLE aib (id INTEGER PRIMARY KEY ON CONFLICT ROLLBACK AUTOINCREMENT, v TEXT)",
+			"CREATE TABLE aic (id INTEGER PRIMARY KEY ASC ON CONFLICT ABORT AUTOINCREMENT, v TEXT)",
+		}},
+		{"autoincrement-mixed-case-lines", []string{
+			"CREATE TABLE aid (id Integer Primary Key AutoIncrement, v TEXT)",
+			"CREATE TABLE aie (id INTEGER\nPRIMARY\nKEY\nASC\nAUTOINCREMENT\nNOT NULL, v TEXT)",
+		}},
+		{"autoincrement-among-constraints", []string{
+			"CREATE TABLE aif (id INTEGER NOT NULL PRIMARY KEY AUTOINCREMENT, v TEXT)",
+			"CREATE TABLE aig (id INTEGER CONSTRAINT aig_pk PRIMARY KEY AUTOINCREMENT, v TEXT)",
+			"CREATE TABLE aih (id INTEGER PRIMARY KEY AUTOINCREMENT CHECK (id > 0), v TEXT)",
+			"CREATE TABLE aii (v TEXT, id INTEGER PRIMARY KEY AUTOINCREMENT)",
+			"CREATE TABLE aij (id INTEGER PRIMARY KEY, v TEXT)",
 		}},
 		{"rename-rewritten", []string{
 			"CREATE TABLE rn0 (id INTEGER PRIMARY KEY AUTOINCREMENT, v text CONSTRAINT rn_ck CHECK (v <> ''), p integer CONSTRAINT rn_fk REFERENCES rn0 (id))",
